@@ -288,7 +288,49 @@ Open Scope string_scope.
     | None => bad_case
     end.
 
-Definition table_C17 : table :=
+(* the seven entries judged call by call *)
+Definition table_C17_calls : table :=
   [("calcBitIndex", fun _ => d_calc); ("convertVerticallIDToBit", fun _ => d_vid_to_bit); ("convertBitToVerticalID", fun _ => d_bit_to_vid);
    ("ConvertExtendedSpatialIDsToQuadkeysAndVerticalIDs", d_to_qv false); ("ConvertSpatialIDsToQuadkeysAndVerticalIDs", d_to_qv true);
    ("ConvertQuadkeysAndVerticalIDsToExtendedSpatialIDs", d_from_qv false); ("ConvertQuadkeysAndVerticalIDsToSpatialIDs", d_from_qv true)].
+
+(* ---- histories: a case "Sequence" is a list of steps [function; arguments; scribble?] executed back to back in one process (after a fixed
+   priming call), with the caller overwriting its own argument slices / objects and the returned slices after the steps marked `scribble`.
+   The model is a pure function, so every step is judged exactly like a standalone call on its own arguments and its own observed output
+   (seq_judge_independent below); on top of that the results the caller kept must still read the same after the later calls (`stable`). ---- *)
+Definition judge (oracle : oracle_t) (step obs : val) : verdict :=
+  match step with
+  | VL [VS fn; VL args; VB _] => run_table table_C17_calls oracle fn args obs
+  | _ => bad_case
+  end.
+Fixpoint seq_judge (oracle : oracle_t) (steps obs : list val) : list verdict :=
+  match steps, obs with
+  | s :: steps', o :: obs' => judge oracle s o :: seq_judge oracle steps' obs'
+  | _, _ => []
+  end.
+Definition is_bad (v : verdict) : bool := String.eqb (v_class v) "bad-case".
+Definition excused (v : verdict) : bool := negb (String.eqb (v_class v) "-") && negb (is_bad v).
+Definition d_sequence (oracle : oracle_t) (args : list val) (obs : val) : verdict :=
+  match args, obs with
+  | [VL steps], VL [VL results; VB stable] =>
+      if negb (Nat.eqb (List.length steps) (List.length results)) then bad_case
+      else let vs := seq_judge oracle steps results in
+           if existsb is_bad vs then bad_case
+           else mkv (forallb v_corr vs)
+                    (stable && forallb (fun v => v_prop v || excused v) vs)   (* a step inside a listed finding class is excused, that step only *)
+                    "-" (VL (map v_model vs))
+  | _, _ => bad_case
+  end.
+
+(* the verdict on a step of a history is the verdict of the standalone call with that step's own arguments and observed output,
+   whatever calls precede or follow it *)
+Lemma seq_judge_independent oracle : forall pre opre s o post opost, List.length pre = List.length opre ->
+  nth_error (seq_judge oracle (pre ++ s :: post) (opre ++ o :: opost)) (List.length pre) = Some (judge oracle s o).
+Proof.
+  induction pre as [|a pre IH]; intros [|b opre] s o post opost H; try discriminate; [reflexivity|].
+  cbn [app seq_judge List.length nth_error]. apply IH. now inversion H.
+Qed.
+Lemma seq_judge_length oracle : forall steps obs, List.length steps = List.length obs -> List.length (seq_judge oracle steps obs) = List.length steps.
+Proof. induction steps as [|a r IH]; intros [|b obs] H; try discriminate; [reflexivity|]. cbn. f_equal. apply IH. now inversion H. Qed.
+
+Definition table_C17 : table := (table_C17_calls ++ [("Sequence", d_sequence)])%list.
